@@ -39,18 +39,29 @@ ssize_t __wrap_sendto(int fd, const void *buf, size_t len, int flags, const stru
     return (ssize_t)len;
 }
 
-static struct ifaddrs ifa[3];
+static struct ifaddrs ifa[8];
 static struct sockaddr_in sa4;
 static struct sockaddr_in6 sa6;
-static struct sockaddr_in other4;
+static struct sockaddr_in other4, decoy4;
+static struct sockaddr_in6 decoy6;
 int __wrap_getifaddrs(struct ifaddrs **out) {
-    /* another interface first, then ours: the port must pick by name */
+    /* other interfaces first - among them ones whose names merely share a prefix with ours (veth0 vs
+     * veth00, veth0.100, vet) - then ours: the port must pick by exact name */
     memset(ifa, 0, sizeof ifa);
     other4.sin_family = AF_INET;
     other4.sin_addr.s_addr = htonl(0x7F000001);
     ifa[0].ifa_name = "lo";
     ifa[0].ifa_addr = (struct sockaddr *)&other4;
-    struct ifaddrs *tail = &ifa[0];
+    decoy4.sin_family = AF_INET;
+    decoy4.sin_addr.s_addr = htonl(0x0A090909);
+    decoy6.sin6_family = AF_INET6;
+    memset(&decoy6.sin6_addr, 0x99, 16);
+    ifa[3].ifa_name = "veth00";      ifa[3].ifa_addr = (struct sockaddr *)&decoy4;
+    ifa[4].ifa_name = "veth0.100";   ifa[4].ifa_addr = (struct sockaddr *)&decoy6;
+    ifa[5].ifa_name = "vet";         ifa[5].ifa_addr = (struct sockaddr *)&decoy4;
+    ifa[6].ifa_name = "veth0";       ifa[6].ifa_addr = NULL;          /* an entry without an address */
+    ifa[0].ifa_next = &ifa[3]; ifa[3].ifa_next = &ifa[4]; ifa[4].ifa_next = &ifa[5]; ifa[5].ifa_next = &ifa[6];
+    struct ifaddrs *tail = &ifa[6];
     if (have6) {
         sa6.sin6_family = AF_INET6;
         memcpy(&sa6.sin6_addr, ip6, 16);
